@@ -3,6 +3,7 @@ package filetransfer
 
 import (
 	"archive/tar"
+	"bufio"
 	"compress/gzip"
 	"fmt"
 	"io"
@@ -93,6 +94,30 @@ func TarDirectory(dir string, w io.Writer) error {
 // It creates the destination directory if it doesn't exist.
 // For security, it validates paths to prevent directory traversal attacks.
 func UntarDirectory(r io.Reader, destDir string) error {
+	return untarDirectory(r, destDir, true)
+}
+
+// UntarDirectoryAuto is UntarDirectory for a stream that is either a gzip-compressed or a
+// plain tar archive (told apart by the gzip magic number). The same path, symlink and
+// hard-link checks apply.
+func UntarDirectoryAuto(r io.Reader, destDir string) error {
+	return untarDirectory(r, destDir, false)
+}
+
+// gzipOrPlain returns a reader for the tar stream in r: the gzip decompressor when r
+// starts with the gzip magic number (or when gzipOnly is set), r itself otherwise.
+func gzipOrPlain(r io.Reader, gzipOnly bool) (io.ReadCloser, error) {
+	if gzipOnly {
+		return gzip.NewReader(r)
+	}
+	br := bufio.NewReader(r)
+	if magic, err := br.Peek(2); err == nil && magic[0] == 0x1f && magic[1] == 0x8b {
+		return gzip.NewReader(br)
+	}
+	return io.NopCloser(br), nil
+}
+
+func untarDirectory(r io.Reader, destDir string, gzipOnly bool) error {
 	// Clean destination directory
 	destDir = filepath.Clean(destDir)
 
@@ -101,8 +126,8 @@ func UntarDirectory(r io.Reader, destDir string) error {
 		return fmt.Errorf("failed to create destination directory: %w", err)
 	}
 
-	// Create gzip reader
-	gzr, err := gzip.NewReader(r)
+	// Create gzip reader (a plain tar stream is passed through unless gzipOnly is set)
+	gzr, err := gzipOrPlain(r, gzipOnly)
 	if err != nil {
 		return fmt.Errorf("failed to create gzip reader: %w", err)
 	}
